@@ -151,6 +151,9 @@ pub enum Op {
     Fund { amt: u32 },
     /// refill the multisig's pool of the deposit token
     FundDeposit { amt: u32 },
+    /// every silent voter / member (the ones that otherwise never act) casts the same vote on one proposal:
+    /// proposals with more ballots than any page or batch holds (C03, C05)
+    SilentVotes { prop: Target, vote: u8 },
 }
 
 #[derive(Clone, Debug, Serialize, Deserialize, PartialEq)]
@@ -268,7 +271,7 @@ fn pmsgs(prop: &str) -> BoxedStrategy<Vec<PMsg>> {
         })
         .boxed(),
         // (ReClose: the multisig itself closes a proposal while executing another one - a Close like any other)
-        "C15" => proptest::collection::vec(prop_oneof![12 => Just(PMsg::Record), 8 => (actor(), 0u32..40).prop_map(|(to, amt)| PMsg::SpendDeposit { to, amt }), 2 => Just(PMsg::RePropose), 3 => pref().prop_map(PMsg::ReClose)], 0..3).boxed(),
+        "C15" => proptest::collection::vec(prop_oneof![12 => Just(PMsg::Record), 8 => (actor(), 0u32..40).prop_map(|(to, amt)| PMsg::SpendDeposit { to, amt }), 2 => Just(PMsg::SpendDeposit { to: 255, amt: u32::MAX }), 2 => Just(PMsg::RePropose), 3 => pref().prop_map(PMsg::ReClose)], 0..3).boxed(),
         _ => Just(vec![]).boxed(),
     }
 }
@@ -309,9 +312,10 @@ fn op(prop: &str) -> BoxedStrategy<Op> {
     let fault = any::<bool>().prop_map(|on| Op::Fault { on }).boxed();
     let fund = (0u32..200).prop_map(|amt| Op::Fund { amt }).boxed();
     let fund_dep = (0u32..60).prop_map(|amt| Op::FundDeposit { amt }).boxed();
+    let silent_votes = (target(), prop_oneof![6 => Just(0u8), 1 => Just(1u8), 1 => Just(2u8)]).prop_map(|(prop, vote)| Op::SilentVotes { prop, vote }).boxed();
     match prop {
-        "C03" => prop_oneof![6 => propose, 14 => vote, 4 => execute, 4 => close, 3 => advance, 4 => to_expiry, 2 => group].boxed(),
-        "C05" => prop_oneof![6 => propose, 10 => vote, 9 => execute, 4 => close, 2 => advance, 3 => to_expiry, 3 => fault, 2 => fund, 2 => group].boxed(),
+        "C03" => prop_oneof![12 => propose, 28 => vote, 8 => execute, 8 => close, 6 => advance, 8 => to_expiry, 4 => group, 1 => silent_votes].boxed(),
+        "C05" => prop_oneof![12 => propose, 20 => vote, 18 => execute, 8 => close, 4 => advance, 6 => to_expiry, 6 => fault, 4 => fund, 4 => group, 1 => silent_votes].boxed(),
         "C06" => prop_oneof![6 => propose, 12 => vote, 2 => execute, 1 => close, 4 => advance, 2 => to_expiry, 8 => group].boxed(),
         // C15: group changes between Propose and Execute / Close must not touch anybody's deposit
         _ => prop_oneof![8 => propose, 10 => vote, 6 => execute, 6 => close, 2 => advance, 4 => to_expiry, 1 => fund_dep, 3 => group].boxed(),
@@ -324,6 +328,9 @@ fn voters(prop: &str, fixed: bool) -> BoxedStrategy<Vec<(u8, u64)>> {
         prop_oneof![2 => distinct, 3 => proptest::collection::vec((actor(), weight()), 1..8)].boxed()
     } else if fixed {
         prop_oneof![9 => distinct, 1 => proptest::collection::vec((actor(), weight()), 1..8)].boxed()
+    } else if prop == "C06" {
+        // (a group list that names an address twice - verbatim or with another weight - is refused by the group)
+        prop_oneof![12 => distinct, 1 => proptest::collection::vec((actor(), prop_oneof![Just(1u64), Just(5u64), weight()]), 2..8)].boxed()
     } else {
         distinct
     }
@@ -421,8 +428,25 @@ pub fn mcase_strategy(prop: &str, tier: Tier) -> BoxedStrategy<MCase> {
                     g
                 })
                 .boxed();
+            // C05: a heavy member is removed in the very block a proposal is opened in; the others vote it down; the
+            // removed member (still a voter by the proposal's snapshot) then votes Yes; somebody tries to execute.
+            // Once reported Rejected a proposal stays Rejected, whatever arrives later
+            let shrunk = (actor(), by_member(), any::<u16>(), any::<u16>(), by_member())
+                .prop_map(|(a, by, k1, k2, executor)| {
+                    vec![
+                        Op::GroupUpdate { add: vec![(a, 12)], remove: vec![] },
+                        Op::Advance { blocks: 1, secs: 5 },
+                        Op::GroupUpdate { add: vec![], remove: vec![a] },
+                        Op::Propose { by, msgs: vec![], latest: Latest::None, pay: Pay::Exact },
+                        Op::Vote { by: By::Fresh(k1), prop: Target::Any(u16::MAX), vote: 1 },
+                        Op::Vote { by: By::Fresh(k2), prop: Target::Any(u16::MAX), vote: 1 },
+                        Op::Vote { by: By::Actor(a), prop: Target::Any(u16::MAX), vote: 0 },
+                        Op::Execute { by: executor, prop: Target::Any(u16::MAX) },
+                    ]
+                })
+                .boxed();
             let groups = if prop_s == "C05" {
-                prop_oneof![12 => single, 3 => campaign, 2 => retry, 1 => twice].boxed()
+                prop_oneof![24 => single, 6 => campaign, 4 => retry, 2 => twice, 1 => shrunk].boxed()
             } else if prop_s == "C06" {
                 prop_oneof![12 => single, 3 => campaign, 1 => long_haul, 1 => leaver, 1 => grown].boxed()
             } else {
@@ -546,6 +570,13 @@ struct World {
     deposit: Option<DepSpec>,
     /// the actor that is a contract, if any
     relay: Option<Addr>,
+    silent: Vec<Addr>,
+}
+
+/// recipient and amount of a `SpendDeposit` message: recipient 255 is the proposer itself, amount u32::MAX exactly
+/// the configured deposit (a proposal that pays its proposer the very sum its deposit refund pays)
+fn spend_target(to: u8, amt: u32, proposer: usize, deposit: u128) -> (usize, u128) {
+    (if to == 255 { proposer } else { to as usize % N_ACTORS }, if amt == u32::MAX { deposit } else { amt as u128 })
 }
 
 /// the address an `ExecSpec::Only` index stands for (100, 101: strings that are nobody's address)
@@ -814,7 +845,9 @@ pub fn run_mcase(prop: &str, case: &MCase, ctx: &mut CaseCtx) -> Result<(), Viol
         for (i, w) in &case.voters {
             m.insert(*i as usize % N_ACTORS, *w);
         }
-        let gmsg = cw4_group::msg::InstantiateMsg { admin: Some(admin.to_string()), members: m.iter().map(|(i, w)| Member { addr: actors[*i].to_string(), weight: *w }).chain(silent_addrs.iter().zip(case.silent.iter()).map(|(a, w)| Member { addr: a.to_string(), weight: *w })).collect() };
+        // (the list goes out as generated: C06 lists may name an address twice, which the group has to refuse)
+        let _ = &m;
+        let gmsg = cw4_group::msg::InstantiateMsg { admin: Some(admin.to_string()), members: case.voters.iter().map(|(i, w)| Member { addr: actors[*i as usize % N_ACTORS].to_string(), weight: *w }).chain(silent_addrs.iter().zip(case.silent.iter()).map(|(a, w)| Member { addr: a.to_string(), weight: *w })).collect() };
         let g = match try_instantiate(&mut app, gcode, &faucet, &gmsg, "group") {
             Ok(a) => a,
             Err(_) => {
@@ -867,7 +900,7 @@ pub fn run_mcase(prop: &str, case: &MCase, ctx: &mut CaseCtx) -> Result<(), Viol
         });
     }
 
-    let mut w = World { app, actors, faucet, multisig, group, recorder, cw20, fixed, executor, deposit, relay };
+    let mut w = World { app, actors, faucet, multisig, group, recorder, cw20, fixed, executor, deposit, relay, silent: silent_addrs.clone() };
     let n_addr = N_ACTORS; // index of the multisig in Obs.bal
 
     let mut pre = w.observe().map_err(qerr)?;
@@ -1114,10 +1147,13 @@ pub fn run_mcase(prop: &str, case: &MCase, ctx: &mut CaseCtx) -> Result<(), Viol
                         // around it - other strings than the actor's address: whatever the bank makes of them, the payment
                         // is dispatched as written and the actor's own account gets nothing)
                         PMsg::BankSend { to, amt } => BankMsg::Send { to_address: match *to { 200..=u8::MAX => format!(" {} ", w.actors[*to as usize % N_ACTORS]), 100..=199 => w.actors[*to as usize % N_ACTORS].to_string().to_uppercase(), _ => w.actors[*to as usize % N_ACTORS].to_string() }, amount: coins(*amt as u128, SPEND_DENOM) }.into(),
-                        PMsg::SpendDeposit { to, amt } => match (&w.cw20, w.deposit.map(|d| d.cw20).unwrap_or(false)) {
-                            (Some(tok), true) => WasmMsg::Execute { contract_addr: tok.to_string(), msg: to_json_binary(&Cw20ExecuteMsg::Transfer { recipient: w.actors[*to as usize % N_ACTORS].to_string(), amount: Uint128::new(*amt as u128) }).unwrap(), funds: vec![] }.into(),
-                            _ => BankMsg::Send { to_address: w.actors[*to as usize % N_ACTORS].to_string(), amount: coins(*amt as u128, DEP_DENOM) }.into(),
-                        },
+                        PMsg::SpendDeposit { to, amt } => {
+                            let (to, amt) = spend_target(*to, *amt, by, w.deposit.map(|d| d.amount).unwrap_or(1));
+                            match (&w.cw20, w.deposit.map(|d| d.cw20).unwrap_or(false)) {
+                                (Some(tok), true) => WasmMsg::Execute { contract_addr: tok.to_string(), msg: to_json_binary(&Cw20ExecuteMsg::Transfer { recipient: w.actors[to].to_string(), amount: Uint128::new(amt) }).unwrap(), funds: vec![] }.into(),
+                                _ => BankMsg::Send { to_address: w.actors[to].to_string(), amount: coins(amt, DEP_DENOM) }.into(),
+                            }
+                        }
                         PMsg::RePropose if !w.fixed && w.deposit.map(|d| d.cw20).unwrap_or(false) => WasmMsg::Execute {
                             contract_addr: w.multisig.to_string(),
                             msg: to_json_binary(&cw3_fixed_multisig::msg::ExecuteMsg::Propose { title: "nested".into(), description: "proposed by the multisig itself".into(), msgs: vec![], latest: None }).unwrap(),
@@ -1191,6 +1227,20 @@ pub fn run_mcase(prop: &str, case: &MCase, ctx: &mut CaseCtx) -> Result<(), Viol
                 let vv = to_vote(*vote);
                 let r = exec_as(&mut w.app, w.relay.clone().as_ref(), &w.faucet.clone(), &w.actors[by].clone(), &w.multisig.clone(), &cw3_fixed_multisig::msg::ExecuteMsg::Vote { proposal_id: id, vote: vv }, &[]);
                 Done::Vote { by, target, ok: r.is_ok(), vote: vv }
+            }
+            Op::SilentVotes { prop: k, vote } => {
+                if let Some(t) = pick_target(k, 0) {
+                    let id = models[t].id;
+                    let vv = to_vote(*vote);
+                    let mut accepted = 0u64;
+                    for a in w.silent.clone() {
+                        if try_exec(&mut w.app, &a, &w.multisig.clone(), &cw3_fixed_multisig::msg::ExecuteMsg::Vote { proposal_id: id, vote: vv }, &[]).is_ok() {
+                            accepted += 1;
+                        }
+                    }
+                    ctx.add("silent_votes_accepted", accepted);
+                }
+                Done::Other
             }
             Op::Execute { by, prop: k } => {
                 let target = pick_target(k, 1);
@@ -1579,7 +1629,7 @@ fn oracle_c05(w: &World, pre: &Obs, post: &Obs, done: &Done, models: &mut [PMode
             return Err(v(prop, "lifecycle-backwards", format!("{at}: proposal {} went {:?} -> {:?}", m.id, m.last_status, o.status)));
         }
         let f = &m.first;
-        if o.title != f.title || o.description != f.description || o.msgs != f.msgs || o.thr != f.thr || o.total != f.total || o.expires != f.expires || o.proposer != f.proposer {
+        if o.title != f.title || o.description != f.description || o.msgs != f.msgs || o.thr != f.thr || o.total != f.total || o.expires != f.expires || o.proposer != f.proposer || o.has_deposit != f.has_deposit {
             return Err(v(prop, "content-changed", format!("{at}: content/threshold/expiry of proposal {} changed after creation", m.id)));
         }
     }
@@ -1885,8 +1935,9 @@ fn oracle_c15(w: &World, pre: &Obs, post: &Obs, done: &Done, models: &mut [PMode
                 let m = &mut models[*i];
                 for pm in &m.msgs {
                     if let PMsg::SpendDeposit { to, amt } = pm {
-                        expect[*to as usize % N_ACTORS] += *amt as i128;
-                        expect[ms] -= *amt as i128;
+                        let (to, amt) = spend_target(*to, *amt, m.proposer, d.amount);
+                        expect[to] += amt as i128;
+                        expect[ms] -= amt as i128;
                     }
                 }
                 if m.deposit_held {
@@ -1926,6 +1977,13 @@ fn oracle_c15(w: &World, pre: &Obs, post: &Obs, done: &Done, models: &mut [PMode
             expect[ms] += *amt as i128;
         }
         Done::Close { target: Some(i), ok: true } => {
+            // "returned only when the proposal is executed or ... when it fails": while ballots are still accepted
+            // a proposal has not failed - a Close (the refund of a failed proposal) cannot go through yet
+            if let Some(o) = pre.props.iter().find(|p| p.id == models[*i].id) {
+                if !is_expired(&o.expires, _h, _t) && o.status == Status::Open {
+                    return Err(v(prop, "closed-before-it-failed", format!("{at}: proposal {} (Open, expires {:?}) was closed, and its deposit handled as that of a failed proposal, before its voting period was over", o.id, o.expires)));
+                }
+            }
             let m = &mut models[*i];
             if d.refund_failed && m.deposit_held && !m.deposit_returned {
                 expect[m.proposer] += d.amount as i128;
@@ -2088,7 +2146,7 @@ pub fn decode_mcase(prop: &str, u: &mut arbitrary::Unstructured) -> MCase {
                             .take(5)
                             .collect()
                     }
-                    "C15" => (0..arb_below(u, 3)).map(|_| if arb_bool(u, 2, 5) { PMsg::SpendDeposit { to: d_actor(u), amt: arb_below(u, 40) as u32 } } else if arb_bool(u, 1, 6) { if arb_bool(u, 1, 3) { PMsg::RePropose } else { PMsg::ReClose(if arb_bool(u, 1, 3) { PRef::Own } else { PRef::Other(u.arbitrary().unwrap_or(0)) }) } } else { PMsg::Record }).collect(),
+                    "C15" => (0..arb_below(u, 3)).map(|_| if arb_bool(u, 2, 5) { if arb_bool(u, 1, 6) { PMsg::SpendDeposit { to: 255, amt: u32::MAX } } else { PMsg::SpendDeposit { to: d_actor(u), amt: arb_below(u, 40) as u32 } } } else if arb_bool(u, 1, 6) { if arb_bool(u, 1, 3) { PMsg::RePropose } else { PMsg::ReClose(if arb_bool(u, 1, 3) { PRef::Own } else { PRef::Other(u.arbitrary().unwrap_or(0)) }) } } else { PMsg::Record }).collect(),
                     _ => vec![],
                 };
                 let latest = match arb_below(u, 8) {
